@@ -21,7 +21,7 @@ RULE = ('loader: sets of 0-6 configured names (recording classes with order 0-3,
         'PLUGIN_<NAME>=false, unimportable module, missing class) on top of the built-ins; isolation: for each seeded '
         'scenario of 2-4 plugins EVERY recorded call (plugin, callback in decorate/log/metric/span_open/span_close, '
         'index) is faulted once (exhaustive per scenario); end-to-end: resource / shutdown / constructor faults per '
-        'plugin; non-trivial = a fault was injected or a plugin had to be skipped; distinct by canonical case')
+        'plugin; the shipped Prometheus plugin failing on a metric the application has registered itself; non-trivial = a fault was injected or a plugin had to be skipped; distinct by canonical case')
 ASSUMPTIONS = ['only the first tracepoint logger is used by the agent (documented behaviour), so a second logger '
                'never records', 'the faulted plugin\'s own later calls are not required']
 EXHAUSTIVE = ['per scenario: every (plugin, callback, k-th call) seen in the fault-free run is faulted once']
